@@ -37,19 +37,29 @@ GAdvance(flip) == \E d \in Steps :
 \* an endpoint stops listening / comes back (only with Faults)
 GFault(x) == SetUp(x, ~up[x]) /\ Rec(IF up[x] THEN "Down" ELSE "Up", 0, x, "", FALSE, 0, <<>>) /\ UNCHANGED bad
 
-\* weights: with a call in flight mostly finish it; otherwise 50 select / 22 check / 28 advance
+\* the refresher asks the registry again (only with Answers # {}): any answer the model can follow, half of the time one that
+\* changes the installed list (the others -- the same list, an empty answer -- must change nothing)
+Able == {x \in Answers : RefreshOK(x)}
+Changing == {x \in Able : (x.a # reg \/ x.v) /\ x.a # {}}
+GRefresh(coin) == \E x \in (IF coin = 1 /\ Changing # {} THEN Changing ELSE Able) :
+             /\ Refresh(x) /\ hist' = Append(hist, RefreshRec(x)) /\ UNCHANGED bad
+
+\* weights: with a call in flight mostly finish it; otherwise 50 select / 22 check / 28 advance (refreshes: 10 of the 28)
 GenNext ==
   LET r  == RandomElement(1..100)
       p  == RandomElement(1..100)
       fl == RandomElement(1..(3 * N))          \* one endpoint flips in a third of the advances
-  IN IF Overlap /\ Busy # {} /\ r >= 80 THEN GCheck          \* the status check runs while a call is in flight
+      cn == RandomElement(1..2)
+  IN IF Overlap /\ Busy # {} /\ Able # {} /\ r >= 94 THEN GRefresh(cn)   \* the refresher runs while a call is in flight
+     ELSE IF Overlap /\ Busy # {} /\ r >= 80 THEN GCheck          \* the status check runs while a call is in flight
      ELSE IF Busy # {} /\ (Free = {} \/ r <= 60) THEN GDone(p)
      ELSE IF r <= 50 THEN GSelect
      ELSE IF Busy = {} /\ r <= 72 THEN GCheck
      ELSE IF Busy = {} /\ Faults /\ r <= 82 THEN GFault(RandomElement(Eps))
+     ELSE IF Busy = {} /\ Able # {} /\ r >= 91 THEN GRefresh(cn)
      ELSE IF Busy = {} THEN GAdvance(fl)
      ELSE GSelect
 GenInit == Init /\ hist = <<>> /\ bad \in SUBSET Eps
 GenSpec == GenInit /\ [][GenNext]_<<vars, hist, bad>>
-Emit == TLCGet("level") < D \/ PrintT(ToJson([n |-> N, calls |-> Cardinality(Calls), overlap |-> Overlap, keepalive |-> KeepAlive, steps |-> hist]))
+Emit == TLCGet("level") < D \/ PrintT(ToJson([n |-> N, reg0 |-> SetToSeq(Reg0), stale |-> Stale, calls |-> Cardinality(Calls), overlap |-> Overlap, keepalive |-> KeepAlive, steps |-> hist]))
 ====
